@@ -143,7 +143,7 @@ RunResult run_w3(const Plan& pl) {
                 if (max_id != max_before + 2 * gone) res.fail("C08", "id_counter_advance", "id counter did not advance by two per division");
                 // a second division round in a later call: cells of the new population (daughters included) become ready; ids handed out
                 // now must differ from every id handed out before ("dividing several cells ... one after another", "never reused")
-                if (pl.geti("second_round", 0) && res.viol.empty() && !L.empty()) {
+                if (pl.geti("second_round", 0) && !L.empty() && !res.has("C09") && !res.has("C15")) {     // (a C08 complaint about the id counter does not stop the second round: its consequence shows there)
                     std::set<unsigned> before_ids; for (auto& c : L) before_ids.insert(c->get_id()); std::set<unsigned> ever = before_ids; for (auto& mi : M) ever.insert(mi.id);
                     sim::Rng rr(pl.seed * 131 + 17); int k2 = 1 + (int)rr.below(std::min<size_t>(3, L.size()));
                     for (int q = 0; q < k2; q++) { cell& c = *L[rr.below(L.size())]; cell_tester::division_volume(c) = 0.5 * c.get_volume(); if (auto* pc = dynamic_cast<plan_cell*>(&c)) pc->ready = true; }   // any position of the list: bystanders of the first round and daughters
